@@ -483,7 +483,7 @@ class MetadorGroup(MetadorNode):
         if isinstance(dest, str):
             dst_path = dest
         elif isinstance(dest, MetadorGroup):
-            dst_path = dest.name + f"/{dst_name}"
+            dst_path = dest.name.rstrip("/") + f"/{dst_name}"  # (root group: "/")
         else:
             raise ValueError("Copy dest must be path or Group!")
         self._guard_path(dst_path)
